@@ -749,6 +749,9 @@ func (in *Interp) runFrame(fr *frame) {
 				fr.result = in.zero(fr.fn.Signature.Results())
 			}
 		case abortPath:
+			if r.kind == abortUnsupported && !strings.Contains(r.msg, " [in ") {
+				r.msg += " [in " + in.stackTail(4) + "]"
+			}
 			panic(r)
 		case runtime.Error:
 			// engine bug or unexpected dynamic type: report with context
